@@ -37,9 +37,20 @@ TagTouchesLine(t, d, k) ==
 WrapperLinesClean(t, d) ==
   \A e \in d.elems : (e.uw /\ e.st = "ready" /\ e.m >= 2) => ~TagTouchesLine(t, d, e.lo + 1) /\ ~TagTouchesLine(t, d, e.lc - 1)
 
+\* A tagged wrapper line is harmless for stepwise cleaning when every tag on it belongs to an element lying wholly
+\* on that line and the line has text of its own outside those elements: whichever of them an earlier run removes,
+\* the line stays the same non-blank line, and the run that unwraps the block deletes it with whatever is left on it.
+WrapperLineHarmless(t, d, k) ==
+  LET xs == {x \in d.elems : LineOf(d.br, x.os) = k /\ LineOf(d.br, x.ce - 1) = k} IN
+  /\ \A i \in 1..Len(d.tk) :
+        (d.tk[i].k = 1 /\ d.tk[i].s < LineE(t, d.br, k) /\ LineS(d.br, k) < d.tk[i].e) => \E x \in xs : x.oi = i \/ x.ci = i
+  /\ \E p \in LineS(d.br, k)..(LineE(t, d.br, k) - 1) : ~IsBlank(t[p + 1]) /\ \A x \in xs : ~(x.os <= p /\ p < x.ce)
+
 \* the same for every unwrap-block element whatever its status (C19: a later run may make it ready)
 WrapperLinesNeverTagged(t, d) ==
-  \A e \in d.elems : (e.uw /\ e.m >= 2) => ~TagTouchesLine(t, d, e.lo + 1) /\ ~TagTouchesLine(t, d, e.lc - 1)
+  \A e \in d.elems : (e.uw /\ e.m >= 2) =>
+     /\ (TagTouchesLine(t, d, e.lo + 1) => WrapperLineHarmless(t, d, e.lo + 1))
+     /\ (TagTouchesLine(t, d, e.lc - 1) => WrapperLineHarmless(t, d, e.lc - 1))
 
 (***************************************************************************)
 (* Line integrity (C11 first sentence, C13 first sentence): the non-blank  *)
